@@ -65,13 +65,13 @@ def judge(rep, hist, text, res):
                                  "after operation %d (%s) of\n%s--- %s" % (i, json.dumps(op), text, desc), dict(rec, step=i), dict(feat, fail=kind))
         if r is None:
             return bad("observer-missing", "the observation command did not run (stderr %s)" % res.get("stderr", "")[-200:])
-        want = ["" if o["exp"][n] == UNSET else o["exp"][n] for n in NAMES]
+        want = ["" if o["exp"].get(n, UNSET) == UNSET else o["exp"][n] for n in NAMES]
         got = r["argv"][1:5]
         if got != want:
             return bad("expansion", "expansions of A B AB _x gave %s, expected %s" % (got, want))
         cenv = r.get("env", {})
         for n in NAMES:
-            w = None if o["child"][n] == UNSET else o["child"][n]
+            w = None if o["child"].get(n, UNSET) == UNSET else o["child"][n]
             if cenv.get(n) != w:
                 return bad("child-env", "the child saw %s=%r, expected %r" % (n, cenv.get(n), w))
         wcwd = root + DIRS[o["cwd"]]
@@ -114,6 +114,17 @@ def runner(rep, tier, seed, replay):
         raise ToolError("model violation during generation:\n" + rs.violation[:2000])
     rep.add_tlc(rs)
     log("[C09] %d histories of %d operations" % (len(hists), len(hists[0]) if hists else 0))
+    # every history of 3 (thorough 4) operations on one name (two values) and the directory tree - exhaustive, from the same
+    # module: short sequences such as assign / export / unset / observe are all there, not left to chance
+    ex = []
+    rx = run_tlc("MCEnvDir", "MCEnvDir_x3" if tier == "quick" else "MCEnvDir_x4", on_replay=ex.append, keep_replays=False, timeout=3000, xmx="16g")
+    if rx.violation:
+        raise ToolError("model violation on a short history:\n" + rx.violation[:2000])
+    rep.add_tlc(rx)
+    if len(ex) > 40000:
+        ex = random.Random(seed).sample(ex, 40000)
+    log("[C09] %d short histories (exhaustive)" % len(ex))
+    hists += ex
     jobs = [job_of(h) for h in hists]
     results = run_cases(jobs)
     distinct = set()
@@ -133,7 +144,7 @@ def runner(rep, tier, seed, replay):
     rep.assumptions += ["values are written in one quoting style (single quotes, double quotes when the value has a single quote)",
                         "the directory tree is R/a, R/a/b, R/h ($HOME), symlink R/l -> a/b, file R/f; the shell starts in R/a with PWD set",
                         "read is given the fixed line 'x y z'"]
-    return rep.finish(rule="TLC-simulated histories of 30 operations (assignment, prefixed command, export, unset, read, cd with absolute / "
+    return rep.finish(rule="every history of 3 (thorough 4) operations on one name, exhaustive, and TLC-simulated histories of 30 operations (assignment, prefixed command, export, unset, read, cd with absolute / "
                            "relative / .. / symlink / no argument / - / file / missing / .) over names {A, B, AB, _x} and values {empty, "
                            "'v w', 'p=q:r', q'r, x}, each followed by an observation command; non-trivial = every history; distinct by text")
 
